@@ -118,8 +118,8 @@ fn generate(rng: &mut Rng, i: u64, _n: u64) -> String {
     for _ in 0..nops {
         let h = pick_h(rng, &lock_of);
         let u = rng.below(NURL);
-        // second handle: half of the time one that shares h's lock (clone or h itself)
-        let h2 = if rng.chance(1, 2) {
+        // second handle: a third of the time one that shares h's lock (clone or h itself)
+        let h2 = if rng.chance(1, 3) {
             let l = lock_at(&lock_of, h);
             let same: Vec<u64> = (0..lock_of.len() as u64).filter(|x| lock_of[*x as usize] == l).collect();
             *rng.pick(&same)
